@@ -257,6 +257,14 @@ def materialise(thorough):
                 continue
             for ml, mt in corpus.governed_value_mutations(dd.text(eol='\n')):
                 vm.append(('%s:%s|%s' % (pname, e[4], ml), mt, ['ST_LOOP']))
+            # composites cut short (the all-filled documents carry every composite of the map), once per (segment id, element, length)
+            seen_cut = set()
+            for ml, mt in corpus.mutations(dd.text(eol='\n')):
+                if ml.startswith('cut-composite'):
+                    k = (ml.split('@')[0], ml.split(':')[1])
+                    if k not in seen_cut:
+                        seen_cut.add(k)
+                        vm.append(('%s:%s|%s' % (pname, e[4], ml), mt, ['ST_LOOP']))
     # a LATER interchange header: every field of the second ISA of two-interchange documents replaced by hostile values
     # and by width-preserving ones (other / unlisted versions, blanks): only the first ISA is vetted when the file is opened
     for e in corpus.one_entry_per_map():
@@ -352,7 +360,7 @@ def run(R):
                 'strings': 'all strings <=4 over {I,S,A,*,~,SP,LF}, alone and after a well-formed ISA; 11 special headers',
                 'configs': 'every base document x 8 sink subsets x charset {B,E}',
                 'envseq': 'every sequence of length <=%d over {ISA,GS,ST,body,SE,GE,IEA,TA1%s} after a well-formed ISA; context reader with loop id None, ST_LOOP, GS_LOOP, ISA_LOOP' % (5 if R.thorough else 4, ',HL' if R.thorough else ''),
-                'values': 'every element and component of every segment of the %s replaced by each of %d hostile values; every field of the SECOND ISA of two two-interchange documents replaced by hostile and width-preserving values (incl. other and unlisted versions); plus every value governed by a date/time format qualifier (D8, RD8, TM, DT, D6) in the all-filled first-code and last-code documents of %s' % ('minimal documents and suite documents <= 1500 bytes' if R.thorough else 'minimal documents', len(corpus.HOSTILE), 'every map' if R.thorough else '6 maps'),
+                'values': 'every element and component of every segment of the %s replaced by each of %d hostile values; every field of the SECOND ISA of two two-interchange documents replaced by hostile and width-preserving values (incl. other and unlisted versions); plus every composite cut short to its first k components (with and without the dangling separator) and every value governed by a date/time format qualifier (D8, RD8, TM, DT, D6) in the all-filled first-code and last-code documents of %s' % ('minimal documents and suite documents <= 1500 bytes' if R.thorough else 'minimal documents', len(corpus.HOSTILE), 'every map' if R.thorough else '6 maps'),
                 'mapkeys': 'one skeleton interchange per entry of maps.xml (%d), sinks {none, all} x charset {B,E}, context reader with None / ISA_LOOP / GS_LOOP / ST_LOOP' % len(ITEMS['mapkeys']),
                 'mut2': 'every pair of structural mutations (first in delete/duplicate/swap/truncate/insert-orphan/bare/retag, second in delete/duplicate/bare/bad count/orphan header or trailer) of three minimal documents' if R.thorough else 'not run in quick'}
     R.assumptions = ['documented refusals: X12Error iff the reference finds an ISA that is not well formed; EngineError "Map not found" iff the (ISA12, GS08, GS01[, BHT02]) key is absent from my reading of maps.xml',
